@@ -37,7 +37,8 @@ def gen_template(r):
     request is still outstanding then, and is later given up by the application."""
     return {"template": {"n": r.choice([2, 2, 3]), "gap": r.choice([0.0, 0.01, 0.3]), "d": r.choice([0.5, 1.0, 3.0]),
                          "cancel_first_at": r.choice([0.02, 0.4, 0.9]), "observe": r.chance(0.4), "blockwise": r.chance(0.5),
-                         "late_con_for_first": r.chance(0.6)},
+                         "late_con_for_first": r.chance(0.6),
+                         "cancel_observation_only": r.chance(0.4)},
             "nscripted": 1, "ops": [], "net": {}}
 
 
@@ -102,6 +103,10 @@ def corpus():
                 for cf in (0.02, 0.9):
                     out.append({"template": {"n": 2, "gap": gap, "d": 1.0, "cancel_first_at": cf, "observe": obs, "blockwise": bw,
                                              "late_con_for_first": True}, "nscripted": 1, "ops": [], "net": {}})
+                    if obs and not bw:
+                        out.append({"template": {"n": 2, "gap": gap, "d": 1.0, "cancel_first_at": cf, "observe": True, "blockwise": False,
+                                                 "late_con_for_first": False, "cancel_observation_only": True},
+                                    "nscripted": 1, "ops": [], "net": {}})
     for kind in ("random_token", "wrong_ip", "wrong_port", "late_copy"):
         for mt in ("CON", "NON", "ACK"):
             for beh in ("piggy", "sep_con"):
@@ -226,7 +231,14 @@ def execute_template(sim, scn):
     def cancel_first():
         r0 = recs[0]
         sim.log("app", "cancel", 0)
-        if not r0["req"].response.done():
+        if tp.get("cancel_observation_only") and tp["observe"] and not tp["blockwise"]:
+            # the application is through with the OBSERVATION (ClientObservation.cancel()) while it still waits for
+            # the request's (first) response: that response is still due
+            sim.probe("observation_cancelled_while_response_pending")
+            if not r0["req"].observation.cancelled:
+                r0["req"].observation.cancel()
+            r0["obs_only"] = True
+        elif not r0["req"].response.done():
             r0["req"].response.cancel()
         elif tp["observe"] and not r0["req"].observation.cancelled:
             r0["req"].observation.cancel()
@@ -241,6 +253,14 @@ def execute_template(sim, scn):
         loop.at(0.1 + tp["d"] + 5.0, late_con)
     sim.run()
     sim.nontrivial = True
+    for rec in recs[:1]:
+        if rec.get("obs_only"):
+            tok0 = seen[0][1] if seen else None
+            if not rec["done"]:
+                sim.violation("C02/request-never-completed", {"request": 0, "why": "its observation was cancelled by the application before "
+                                                              "the first response arrived; the response future is still awaited"})
+            elif rec["outcome"] != "response" or rec.get("payload") != b"for:" + (tok0 or b""):
+                sim.violation("C02/response-delivered-to-wrong-request", {"request": 0, "outcome": rec["outcome"], "payload": repr(rec.get("payload"))})
     for rec in recs[1:]:
         ident = {"request": rec["k"], "of": tp["n"], "observe": tp["observe"], "blockwise": tp["blockwise"]}
         tok = seen[rec["k"]][1] if rec["k"] < len(seen) else None
